@@ -239,7 +239,10 @@ def r1_9(ctx, names=("trim_newlines", "ends_in_newline"), tag="newline-only", mi
     nconst = 0
     for b in bodies:
         odd, seen = [], []
-        for c, where in _all_consts(b):
+        consts = _all_consts(b)
+        for pb in prog.promoted_of(b):      # `Some(&b'\n')` and the like live in promoted constants of the body
+            consts += [(c, b.where()) for c, _ in _all_consts(pb)]
+        for c, where in consts:
             v = None
             if c.ty in ("u8", "char"):
                 v = c.as_int()
